@@ -388,6 +388,71 @@ func c14Excluded(fn *ssa.Function) map[string]bool {
 	return all
 }
 
+func isBuiltinAppend(cl *ssa.Call) bool {
+	b, isB := cl.Common().Value.(*ssa.Builtin)
+	return isB && b.Name() == "append" && len(cl.Common().Args) == 2
+}
+
+// c14SeenGuarded: the append runs only under !seen[k] for a set made in this function in which the same k is recorded.
+func c14SeenGuarded(cl *ssa.Call) bool {
+	for _, fa := range flow.FactsAt(cl.Block()) {
+		// !seen[x]  (lookup in a map[string]bool made in this function)
+		var lk *ssa.Lookup
+		neg := false
+		if u, isU := fa.Cond.(*ssa.UnOp); isU && u.Op == token.NOT {
+			lk, _ = u.X.(*ssa.Lookup)
+			neg = fa.True
+		} else if l, isL := fa.Cond.(*ssa.Lookup); isL {
+			lk, neg = l, !fa.True
+		} else if ex, isEx := fa.Cond.(*ssa.Extract); isEx && ex.Index == 1 {
+			lk, _ = ex.Tuple.(*ssa.Lookup)
+			neg = !fa.True
+		}
+		if lk != nil && neg {
+			if _, isMake := lk.X.(*ssa.MakeMap); isMake {
+				// the same key is recorded in the set
+				for _, r := range ssau.Referrers(lk.X) {
+					if mu, isMU := r.(*ssa.MapUpdate); isMU && mu.Key == lk.Index {
+						return true
+					}
+				}
+			}
+		}
+	}
+	return false
+}
+
+// c14DedupChain: v is a list that starts empty (make with length 0, or nil) and grows only by appends each guarded by
+// the seen-set (the construct a de-duplicating helper consists of, wherever it stands). bases collects the empty
+// lists it starts from.
+func c14DedupChain(v ssa.Value, bases, seen map[ssa.Value]bool) bool {
+	if seen[v] {
+		return true
+	}
+	seen[v] = true
+	switch x := v.(type) {
+	case *ssa.Phi:
+		for _, e := range x.Edges {
+			if !c14DedupChain(e, bases, seen) {
+				return false
+			}
+		}
+		return true
+	case *ssa.MakeSlice:
+		if k, isK := x.Len.(*ssa.Const); isK && k.Value != nil && k.Int64() == 0 {
+			bases[x] = true
+			return true
+		}
+	case *ssa.Const:
+		return x.IsNil()
+	case *ssa.Call:
+		if isBuiltinAppend(x) && c14SeenGuarded(x) {
+			return c14DedupChain(x.Common().Args[0], bases, seen)
+		}
+	}
+	return false
+}
+
 func C14(c *Ctx) {
 	c.R.Explanation = "Decides structural necessary conditions of exactly-once routing for both crew hosts: (R1) every list of recipients returned by the sio recipient selection is the key set of the live machine map computed in that call, a singleton, or the result of the de-duplicating helper (whose appends are guarded by a seen-set bind-if-absent); (R2) the ids excluded from broadcast are the service machine ids and mcrew's reserved names route to no machine; (R3) sio.ProcessMsg's pending queue is a front-pop FIFO (the message processed is element 0, the queue continues as [1:], new messages are appended at the back, the loop runs until it is empty) and every recipient returned is walked once; (R4) mcrew re-injects every emitted message by its own goroutine, unconditionally, once per element of every stride's Emitted. Counts over real histories are not decided."
 	c.R.Rule("C14-R1", "E5", "duplicate-free, live recipient lists", 4)
@@ -433,31 +498,7 @@ func C14(c *Ctx) {
 				return
 			}
 			n++
-			guarded := false
-			for _, fa := range flow.FactsAt(cl.Block()) {
-				// !seen[x]  (lookup in a map[string]bool made in this function)
-				var lk *ssa.Lookup
-				neg := false
-				if u, isU := fa.Cond.(*ssa.UnOp); isU && u.Op == token.NOT {
-					lk, _ = u.X.(*ssa.Lookup)
-					neg = fa.True
-				} else if l, isL := fa.Cond.(*ssa.Lookup); isL {
-					lk, neg = l, !fa.True
-				} else if ex, isEx := fa.Cond.(*ssa.Extract); isEx && ex.Index == 1 {
-					lk, _ = ex.Tuple.(*ssa.Lookup)
-					neg = !fa.True
-				}
-				if lk != nil && neg {
-					if _, isMake := lk.X.(*ssa.MakeMap); isMake {
-						// the same key is recorded in the set
-						for _, r := range ssau.Referrers(lk.X) {
-							if mu, isMU := r.(*ssa.MapUpdate); isMU && mu.Key == lk.Index {
-								guarded = true
-							}
-						}
-					}
-				}
-			}
+			guarded := c14SeenGuarded(cl)
 			if !guarded {
 				okAll = false
 			}
@@ -477,6 +518,28 @@ func C14(c *Ctx) {
 		}
 	}
 	seenLeaf := map[ssa.Value]bool{}
+	// (the de-duplication written out in place: a list that starts empty and grows only by appends guarded by the
+	// seen-set is de-duplicated wherever the loop stands; the empty list it starts from is one of its leaves)
+	inlineBases := map[ssa.Value]bool{}
+	nInline := 0
+	for _, b := range toM.Blocks {
+		ret, ok := b.Instrs[len(b.Instrs)-1].(*ssa.Return)
+		if !ok || len(ret.Results) != 2 || ssau.IsNilConst(ret.Results[0]) {
+			continue
+		}
+		for _, v := range resolveThroughLocals(ret.Results[0], scope) {
+			if cl, isCl := v.(*ssa.Call); isCl && isBuiltinAppend(cl) {
+				bases := map[ssa.Value]bool{}
+				if c14DedupChain(cl, bases, map[ssa.Value]bool{}) {
+					nInline++
+					inlineBases[cl] = true
+					for k := range bases {
+						inlineBases[k] = true
+					}
+				}
+			}
+		}
+	}
 	for _, b := range toM.Blocks {
 		ret, ok := b.Instrs[len(b.Instrs)-1].(*ssa.Return)
 		if !ok || len(ret.Results) != 2 || ssau.IsNilConst(ret.Results[0]) {
@@ -490,10 +553,10 @@ func C14(c *Ctx) {
 			seenLeaf[v] = true
 			nret++
 			why := "returns a list that is neither the live key set, a singleton, nor de-duplicated: " + v.String()
-			okR := false
+			okR := inlineBases[v]
 			switch x := v.(type) {
 			case *ssa.Call:
-				if sc := x.Common().StaticCallee(); sc == allM || dedupe[sc] {
+				if sc := x.Common().StaticCallee(); sc == allM || (sc != nil && dedupe[sc]) {
 					okR = true
 				}
 			case *ssa.Slice:
@@ -509,7 +572,7 @@ func C14(c *Ctx) {
 	if nret < 3 {
 		c.R.Break("C14-R1: toMachines has %d recipient-returning exits", nret)
 	}
-	c.R.Check(len(dedupe) >= 1, "C14-R1", "sio: a de-duplicating helper exists", c.P.Pos(toM.Pos()), "appends guarded by a seen-set", "no helper de-duplicates recipient lists")
+	c.R.Check(len(dedupe) >= 1 || nInline >= 1, "C14-R1", "sio: a de-duplicating helper exists", c.P.Pos(toM.Pos()), "appends guarded by a seen-set", "no helper de-duplicates recipient lists")
 	// allMachines: computed from the live map in this call
 	okLive := true
 	nLiveRet := 0
